@@ -128,7 +128,7 @@ def run(chk):
             shm = Shadow(svcs, timeout, True)      # tracks the serial each instance gets in the merged run
             for cid in order:
                 if cid is None:
-                    items.append(('R', barrier[0], barrier[1], barrier[2])); shm.svcs = list(barrier[0]); continue
+                    items.append(('R', barrier[0], barrier[1], barrier[2])); shm.svcs = [(n_, t_.lower()) for n_, t_ in barrier[0]]; continue
                 line = queues[cid].pop(0)
                 toks = line.split(' ')
                 if len(toks) > 3 and toks[1] in ('X', 'x'):
